@@ -228,7 +228,23 @@ func (e *kinEnv) settle() string {
 	return strings.Join(outs, " | ")
 }
 
+// start (re)creates the splitter. A request of the previous, just closed splitter may have poisoned a pooled
+// loopback connection ("use of closed network connection" / "failed to decode response body" from the HTTP
+// transport): that is transport noise of the in-process fake, not behaviour of the splitter, so such a start is
+// simply tried again on a fresh splitter.
 func (e *kinEnv) start() string {
+	out := ""
+	for attempt := 0; attempt < 4; attempt++ {
+		out = e.startOnce()
+		if !(strings.HasPrefix(out, "error ") && (strings.Contains(out, "use of closed network connection") || strings.Contains(out, "failed to decode response body") || strings.Contains(out, "connection reset"))) {
+			return out
+		}
+		time.Sleep(5 * time.Millisecond)
+	}
+	return out
+}
+
+func (e *kinEnv) startOnce() string {
 	if e.splitter != nil {
 		e.splitter.Close()
 	}
